@@ -325,13 +325,16 @@ func TestStraddleAnswerWitness(t *testing.T) {
 	}
 }
 
-// A lost update on the shim's head pointer: syncStore.Append loads the head, checks the list against it and
-// stores the new head later, with nothing in between that excludes another Append (the sync loop and every Head()
-// call's setLocalHead run concurrently; incomingMu serialises gossip calls only).
+// Finding F24 (a lost update on the shim's head pointer), repaired in /repo 40dc6a8: syncStore.Append used to load
+// the head, check the list against it and store the new head later, with nothing in between that excluded another
+// Append (the sync loop and every Head() call's setLocalHead append concurrently; incomingMu serialises gossip
+// calls only).  Since 40dc6a8 Append holds a lock from the load to the return of Store.Append.
 //  1. store head 17; a Head() call receives 18 and is preempted inside syncStore.Append after loading the head 17;
-//  2. three further Head() calls learn 18, 19, 20: stored, shim head = store head = 20;
-//  3. the first call goes on: it stores ITS head, 18, into the shim.
-// Result - quiescent, no error, nothing pending: Store head 20, Syncer.Head() = State().Height = 18 (after 20).
+//  2. a second Head() call (18 again) has to WAIT for it - before 40dc6a8 it went through, and so did calls
+//     learning 19 and 20, after which the first call put its older head 18 back: Store head 20, Syncer.Head() =
+//     State().Height = 18;
+//  3. the first call goes on, both return; 19 and 20 are learned: Store head = Syncer.Head() = 20.
+// The same run is an always-generated corpus case of the C03 and C07 checks (syncfx.RunStraddle("lock")).
 //   go test -tags verif -run '^TestShimRaceWitness$' -v ./c03/
 func TestShimRaceWitness(t *testing.T) {
 	settle := func() { time.Sleep(40 * time.Millisecond) }
@@ -382,6 +385,14 @@ func TestShimRaceWitness(t *testing.T) {
 		go func() { _, err := sy.Head(context.Background()); res <- err }()
 		return res
 	}
+	wait := func(r chan error, d time.Duration) bool {
+		select {
+		case <-r:
+			return true
+		case <-time.After(d):
+			return false
+		}
+	}
 	x18 := at(18)
 	x18.g = &hgate{armed: true, parked: make(chan struct{}), rel: make(chan struct{}), fn: "syncStore", nth: 1}
 	rA := headCall(x18)
@@ -390,25 +401,26 @@ func TestShimRaceWitness(t *testing.T) {
 	case <-time.After(2 * time.Second):
 		t.Skip("the Head() call did not park inside syncStore.Append (the code changed): witness not applicable")
 	}
-	for n := uint64(18); n <= 20; n++ {
-		r := headCall(at(n))
-		select {
-		case <-r:
-		case <-time.After(3 * time.Second):
+	rB := headCall(at(18))
+	locked := !wait(rB, 150*time.Millisecond)
+	if locked {
+		t.Logf("a second Head() call waits while the first is inside syncStore.Append (store head %d)", storeHead())
+		close(x18.g.rel)
+		if !wait(rA, 3*time.Second) || !wait(rB, 3*time.Second) {
+			t.Fatalf("the Head() calls did not return after the release")
+		}
+	}
+	for n := uint64(19); n <= 20; n++ {
+		if !wait(headCall(at(n)), 3*time.Second) {
 			t.Fatalf("Head() learning %d did not return", n)
 		}
 		settle()
 	}
-	lh0, err := sy.Head(ctx)
-	if err != nil {
-		t.Fatalf("Head: %v", err)
-	}
-	t.Logf("three Head() calls stored 18..20: Store head = %d, Syncer.Head() = %d", storeHead(), lh0.Height())
-	close(x18.g.rel)
-	select {
-	case <-rA:
-	case <-time.After(3 * time.Second):
-		t.Fatalf("the preempted Head() call did not return")
+	if !locked {
+		close(x18.g.rel)
+		if !wait(rA, 3*time.Second) {
+			t.Fatalf("the preempted Head() call did not return")
+		}
 	}
 	settle()
 	lh, err := sy.Head(ctx)
@@ -422,8 +434,8 @@ func TestShimRaceWitness(t *testing.T) {
 	settle()
 	_ = st.Stop(ctx)
 	if lh.Height() < sh {
-		t.Logf("WITNESS: the shim's head went back from %d to %d: Syncer.Head() and State().Height are below the Store head %d with nothing pending", lh0.Height(), lh.Height(), sh)
-	} else {
-		t.Logf("not reproduced on this tree")
+		t.Errorf("WITNESS (F24): the shim's head went back: Syncer.Head() and State().Height are %d, below the Store head %d, with nothing pending", lh.Height(), sh)
+	} else if sh != 20 {
+		t.Errorf("store head %d, want 20", sh)
 	}
 }
